@@ -11,11 +11,11 @@ RULE = ("seeded thread schedules (random / PCT / targeted pre-emption inside the
         "a run is non-trivial if it delivered an event; distinct = distinct pairs of code locations adjacent "
         "across a context switch")
 
-FNS = {"plain": 2, "aug": 1, "callsother": 1, "k1.meth": 1, "clo": 1, "deco": 1, "chain": 1}
+FNS = {"plain": 2, "aug": 1, "callsother": 1, "k1.meth": 1, "clo": 1, "deco": 1, "chain": 1, "genloop": 1}
 QUAL = {"k1.meth": "K.meth"}
 TARGET_FNS = ["push", "pop", "_apply", "get", "transform_for", "transform", "_tooler", "_untooler",
               "__enter__", "__exit__", "_enter", "_exit", "proceed", "__call__", "_register",
-              "_install_tooling", "_uninstall_tooling", "autotool", "wrap_functions"]
+              "_install_tooling", "_uninstall_tooling", "autotool", "wrap_functions", "gen_created"]
 
 
 CHAINS = {"plain": "callsother", "aug": "callsother"}  # callee -> a caller that reaches it
@@ -105,6 +105,11 @@ def gen(rng, tier, quarantine=()):
         sched.update({"strategy": "targeted",
                       "targets": [{"fn": rng.choice(TARGET_FNS), "nth": int(1.5 ** rng.uniform(0, 15))} for _ in range(k)],
                       "p": rng.choice([0.0, 0.0, 0.01])})
+        for tg in sched["targets"]:
+            if tg["fn"] == "gen_created":
+                tg["nth"] = rng.choice([1, 1, 2])  # between the creation of a generator and its first step
+        if "genloop" in shared and rng.random() < 0.5:
+            sched["targets"][0] = {"fn": "gen_created", "nth": rng.choice([1, 1, 2])}
     return {"prog": "forms", "threads": threads, "sched": sched, "ops": [], "setup_tool": sorted(setup_tool)}
 
 
